@@ -399,6 +399,57 @@ def proof_error(pr):
     return log[-400:]
 
 
+def pay_keys_stream(c, examples):
+    """payment-means keys (payment.instructions.key, payment.advances[].key, a payment's method.key): a key is defined
+    when it is one of the published base keys (pay/instructions schema) or extends one with `+...`.  Every such position
+    of the examples gets undefined look-alikes; oracle only (the reference model covers the kinds the statement lists)."""
+    try:
+        j = json.load(open(os.path.join(REPO, "data", "schemas", "pay", "instructions.json")))
+        consts = [a["const"] for a in j["$defs"]["Instructions"]["properties"]["key"]["anyOf"] if isinstance(a, dict) and "const" in a]
+    except (OSError, KeyError, ValueError, TypeError):
+        return
+    base = sorted({k.split("+")[0] for k in consts})
+    fakes = ["cashier", "cardboard", "others", "anything", "netting2", "zz-unknown", "cash-x", "Cash", "card ", "credit", "credit-transfers", "transfer"]
+    fakes += [b + "x" for b in base[:3]] + [b[:-1] for b in base[:3] if len(b) > 3]
+    fakes = [f for f in fakes if f.split("+")[0] not in base]
+    cases = []
+    seen = set()
+    for name, doc in examples:
+        d = doc.get("doc") if isinstance(doc.get("doc"), dict) else doc
+        pos = []
+        pay = d.get("payment") if isinstance(d.get("payment"), dict) else None
+        if pay and isinstance(pay.get("instructions"), dict) and "key" in pay["instructions"]:
+            pos.append(("payment", "instructions", "key"))
+        if pay and isinstance(pay.get("advances"), list):
+            pos += [("payment", "advances", i, "key") for i, a in enumerate(pay["advances"]) if isinstance(a, dict)]
+        if isinstance(d.get("method"), dict) and "key" in d["method"]:
+            pos.append(("method", "key"))
+        for pth in pos:
+            gp = (d.get("$schema"), tuple("*" if isinstance(x, int) else x for x in pth))
+            if gp in seen and len(seen) > 6:
+                continue
+            seen.add(gp)
+            for f in fakes:
+                m = json.loads(json.dumps(doc))
+                t = m.get("doc") if isinstance(m.get("doc"), dict) else m
+                for x in pth[:-1]:
+                    t = t[x]
+                t[pth[-1]] = f
+                cases.append((name, pth, f, m))
+    shown = 0
+    for (name, pth, f, m), g in zip(cases, go_run([x[3] for x in cases])):
+        verdict = g[0][0].decode()
+        c.count("pay-key/undefined/" + verdict, 1, (name, pth, f))
+        if verdict == "accepted" and shown < 3:
+            shown += 1
+            c.report("%s validates although the payment-means key `%s` at %s is not a published key nor an extension of one" % (name, f, "/".join(map(str, pth))),
+                     {"example": name, "path": list(pth), "value": f, "published_base_keys": base,
+                      "clause": "a document that passes validation only references defined codes, keys and rates"})
+        elif verdict == "panic" and shown < 3:
+            shown += 1
+            c.report("payment-means key `%s` at %s of %s makes the library panic" % (f, "/".join(map(str, pth)), name), {"example": name, "value": f})
+
+
 def load_examples():
     p = subprocess.run([os.path.join(BIN, "vharness"), "examples", REPO], stdout=subprocess.PIPE, env=GOENV, timeout=300, text=True)
     out = []
@@ -589,6 +640,19 @@ def run(c):
 
     # ---- the valid examples ----
     examples = load_examples()
+    # valid rich documents (every member of the type populated): references in positions no example uses (item origin,
+    # identities' countries, alternative currencies ...)
+    import richvalid, glob as _gl
+    richdir = os.path.join(WORK, "c14rich")
+    subprocess.run([os.path.join(BIN, "vharness"), "c14rich", richdir], stdout=subprocess.PIPE, stderr=subprocess.PIPE, env=GOENV)
+    for f in sorted(_gl.glob(os.path.join(richdir, "rich-bill-*.json"))):
+        bn = os.path.basename(f)
+        if "+" in bn or not any(k in bn for k in ("bill-invoice", "bill-order", "bill-delivery.", "bill-payment.")):
+            continue
+        try:
+            examples.append(("rich:" + bn, richvalid.make_valid(json.load(open(f)))))
+        except ValueError:
+            pass
     base = go_run([j for _, j in examples])
     valid = []
     for (name, j), g in zip(examples, base):
@@ -652,6 +716,7 @@ def run(c):
     c.cov["verdicts"] = stats
     # failing inputs whose unresolved reference IS the replaced value are listed first
     c.violations.sort(key=lambda v: (v[2], not (isinstance(v[1], dict) and v[1].get("direct"))))
+    pay_keys_stream(c, examples)
     c.cov["rule"] = ("every example file of the repository that parses, calculates and validates (inputs and outputs; "
                      "examples/**, regimes/*/examples, addons/*/*/examples) x every reference position of its typed document "
                      "($regime, each $addons and $tags member, each combo's category, rate key and country override, each extension "
